@@ -1,15 +1,27 @@
 (* C06 — non-2xx responses always raise a status-carrying, class-correct error.
    Only statements, [exact], and Print Assumptions live here.
-   With the findings F06a-d fixed the FULL statement holds on the model; no guard is left. *)
+   F06a-e are fixed: the FULL statement holds on the model, import namespace of the endpoints module included. *)
 From PG Require Import Lib.Strs Model.Dispatch Proofs.Dispatch.
 
-(* For every transport kind (bundled HttpxTransport / a transport returning every response unraised), every package
-   (list of operations of any shape and length), every operation and every status 100..599 outside 200-299: the
-   call raises an exception whose class is a subclass of HTTPError, carrying that status and the response; a
-   subclass of ClientError for 4xx and of ServerError for 5xx. *)
-Theorem C06_full : forall k s o st, status_ok st -> C06_spec (call k s o st) st.
-Proof. exact full. Qed.
+(* The import NAMESPACE of the endpoints module is part of the model (call_ns): exception classes and model classes are
+   both imported by name, the models last, so a model class named like an exception class would shadow it (former F06e);
+   a colliding exception class is therefore referenced through its module.
+
+   C06_full: for every transport kind, package, set [all] of model class names of the spec, set [ms] (included in [all]) of
+   model classes imported by the endpoints module, operation and status 100..599 outside 200-299: the call raises an
+   exception whose class is a subclass of HTTPError carrying that status and the response; a subclass of ClientError
+   for 4xx and of ServerError for 5xx. *)
+Theorem C06_full : forall k s all ms o st, incl ms all -> status_ok st -> C06_spec (call_ns k s all ms o st) st.
+Proof. exact full_ns. Qed.
 Print Assumptions C06_full.
+
+(* regression for F06e: the witness raises the alias; the collision test is what prevents the crash *)
+Theorem C06_fixed_F06e :
+  call_ns Custom [op_F06a] ms_F06e ms_F06e op_F06a 404 = Raised (Alias 404) 404 true
+  /\ exception_ref ms_F06e (Alias 404) = Qualified (alias_name 404)
+  /\ call_ns Custom [op_F06a] [] ms_F06e op_F06a 404 = Crashed.
+Proof. exact fixed_F06e. Qed.
+Print Assumptions C06_fixed_F06e.
 
 (* the alias import of the endpoints module can no longer fail (former F06d) *)
 Theorem C06_imports_always : forall s, imports_ok s = true.
